@@ -80,7 +80,8 @@ def r1(ctx):
             ok = len(fr) == 1 and len(fr[0].args) >= 2 and norm(fr[0].args[1]) == cnt
             ctx.check(ok, "C06.R1", ra, "receiver sized from the count field", "FragmentReceiver(self, count, ...)", witness=[norm(c) for c in fr])
             rc = calls_named(ra, "receive")
-            ok = len(rc) == 1 and [norm(a) for a in rc[0].args] == [idx, ra.params[1], msg] and norm(rc[0].func.value) == "self.received_fragments[%s]" % fid
+            from .common import slot_of
+            ok = len(rc) == 1 and [norm(a) for a in rc[0].args] == [idx, ra.params[1], msg] and slot_of(ra, rc[0].func.value, rc[0]) == "self.received_fragments[%s]" % fid
             ctx.check(ok, "C06.R1", ra, "received_fragments[id].receive(index, msgseq, msg)", "the stripped fragment goes to the slot selected by its own id and index",
                       witness=[norm(c) for c in rc])
             keyed = [n for n in walk_own(ra.node) if isinstance(n, ast.Subscript) and norm(n.value) == "self.received_fragments"]
@@ -329,8 +330,9 @@ def r5(ctx):
             conds = [(norm(t), p) for (t, p) in cfg.conditions_of(cfg.node_of(c).id)]
             ok = any(t.endswith(".isComplete()") and p for (t, p) in conds)
             recv = norm(c.args[1].func.value) if isinstance(c.args[1], ast.Call) and isinstance(c.args[1].func, ast.Attribute) else None
-            src = resolve_arg(rf, c.args[1].func.value, c) if recv else None
-            ok = ok and c.args[1].func.attr == "payload" and norm(src).startswith("self.received_fragments[")
+            from .common import slot_of
+            src = slot_of(rf, c.args[1].func.value, c) if recv else None
+            ok = ok and c.args[1].func.attr == "payload" and (src or "").startswith("self.received_fragments[")
             ctx.check(ok, "C06.R5", rf, c, "a reassembled message is delivered only when complete, as the joined slots", witness=conds, line=c.lineno)
             # the context is deleted after delivery
             dels = [n for n in walk_own(rf.node) if isinstance(n, ast.Delete) and norm(n.targets[0]).startswith("self.received_fragments[")]
